@@ -352,3 +352,55 @@ def stream_interleave_case(rng, dbdir, tag):
         if out[m][1] != want_after:
             fails.append("%s mode: ticks read back after the interleaved appends are %s, expected %s" % (m, out[m][1], want_after))
     return fails, dict(n=n, k=k, pos=pos)
+
+
+def long_run_case(rng, dbdir, tag):
+    """A run with more ticks / events than any page or batch size the stores use (100-300): reading it back gives all of
+    them, in order, in both connection modes.  Returns (failures, facts)."""
+    import vloop as _v
+    n = rng.choice([101, 130, 257])
+    res = {}
+
+    async def one(single):
+        path = os.path.join(dbdir, "lr_%s_%d.db" % (tag, int(single)))
+        for suffix in ("", "-wal", "-shm", "-journal"):
+            if os.path.exists(path + suffix):
+                os.remove(path + suffix)
+        ws = SqliteWorkflowStore(path, single_connection=single)
+        try:
+            for i in range(n):
+                await ws.append_tick("r1", {"k": i})
+                if i % 3 == 0:
+                    await ws.append_event("r1", EventEnvelopeWithMetadata(value={"i": i}, qualified_name=None, type="E", types=None))
+            out = {}
+            for name, fn in (("get_ticks", lambda: ws.get_ticks("r1")), ("query_events", lambda: ws.query_events("r1"))):
+                try:
+                    rows = await fn()
+                    out[name] = [t.tick_data["k"] for t in rows] if name == "get_ticks" else [e.event.value["i"] for e in rows]
+                except Exception as ex:  # noqa: BLE001
+                    out[name] = "raised %s: %s" % (type(ex).__name__, str(ex)[:80])
+            try:
+                out["stream_ticks"] = [t.tick_data["k"] async for t in ws.stream_ticks("r1")]
+            except Exception as ex:  # noqa: BLE001
+                out["stream_ticks"] = "raised %s: %s" % (type(ex).__name__, str(ex)[:80])
+            return out
+        finally:
+            c = ws._persistent_conn
+            if c is not None:
+                c.close()
+
+    async def main():
+        res["percall"] = await one(False)
+        res["single"] = await one(True)
+
+    _v.run(main(), auto=False)
+    fails = []
+    want = dict(get_ticks=list(range(n)), stream_ticks=list(range(n)), query_events=[i for i in range(n) if i % 3 == 0])
+    for m in ("percall", "single"):
+        for k, w in want.items():
+            if res[m][k] != w:
+                got = res[m][k]
+                fails.append("%s mode: %s of a run with %d ticks gives %s" % (
+                    m, k, n, got if isinstance(got, str) else "%d items, first difference at %s" % (
+                        len(got), next((i for i, (x, y) in enumerate(zip(got, w)) if x != y), min(len(got), len(w))))))
+    return fails, dict(n=n)
